@@ -146,29 +146,37 @@ func (k Keeper) ClaimEnd(ctx sdk.Context, id, poolID uint64, loss sdk.Coins) {
 func (k Keeper) RestoreShield(ctx sdk.Context, poolID uint64, purchaser sdk.AccAddress, id uint64, loss sdk.Coins) error {
 	lossAmt := loss.AmountOf(k.sk.BondDenom(ctx))
 
+	// Nothing is restored when the purchase (or its pool) is gone: the purchase
+	// has expired while the claim was open.
+	pool, found := k.GetPool(ctx, poolID)
+	if !found {
+		return types.ErrNoPoolFound
+	}
+	purchaseList, found := k.GetPurchaseList(ctx, poolID, purchaser)
+	if !found {
+		return types.ErrPurchaseNotFound
+	}
+	index := -1
+	for i := range purchaseList.Entries {
+		if purchaseList.Entries[i].PurchaseId == id {
+			index = i
+			break
+		}
+	}
+	if index < 0 {
+		return types.ErrPurchaseNotFound
+	}
+
 	// Update the total shield.
 	totalShield := k.GetTotalShield(ctx).Add(lossAmt)
 	k.SetTotalShield(ctx, totalShield)
 
 	// Update shield of the pool.
-	pool, found := k.GetPool(ctx, poolID)
-	if !found {
-		return types.ErrNoPoolFound
-	}
 	pool.Shield = pool.Shield.Add(lossAmt)
 	k.SetPool(ctx, pool)
 
 	// Update shield of the purchase.
-	purchaseList, found := k.GetPurchaseList(ctx, poolID, purchaser)
-	if !found {
-		return types.ErrPurchaseNotFound
-	}
-	for i := range purchaseList.Entries {
-		if purchaseList.Entries[i].PurchaseId == id {
-			purchaseList.Entries[i].Shield = purchaseList.Entries[i].Shield.Add(lossAmt)
-			break
-		}
-	}
+	purchaseList.Entries[index].Shield = purchaseList.Entries[index].Shield.Add(lossAmt)
 	k.SetPurchaseList(ctx, purchaseList)
 
 	return nil
